@@ -63,7 +63,7 @@ Inductive rop :=
 | RTrunc (ran : bool) (mint : int) (flush ooorm : list (int * int))
 | REvict (stale_only : bool) (refs : list int) (maxt : int)
 | RNop
-| RRestart (post : list rser) (extra : sint).
+| RRestart (post : list rser) (extra bextra : sint).
 
 Definition zo (o : option int) : option Z := match o with Some i => Some (z i) | None => None end.
 Definition zp (p : int * int) : Z * Z := (z (fst p), z (snd p)).
@@ -78,7 +78,7 @@ Definition to_op (o : rop) : op :=
   | RTrunc ran mint f r => OTrunc ran (z mint) (map zp f) (map zp r)
   | REvict so refs maxt => OEvict so (map z refs) (z maxt)
   | RNop => ONop
-  | RRestart post extra => ORestart (map to_ser post) (sz extra)
+  | RRestart post extra bextra => ORestart (map to_ser post) (sz extra) (sz bextra)
   end.
 
 Record robs := mkO {
@@ -132,7 +132,7 @@ Fixpoint sers_eqb (a b : list mser) : bool :=
 Definition walk_of (prev : list rser) (o : rop) (ob : robs) : list rser :=
   match o_walk ob with
   | Some w => w
-  | None => match o with RRestart post _ => post | _ => prev end
+  | None => match o with RRestart post _ _ => post | _ => prev end
   end.
 
 (* the model keeps the series in creation order = increasing ref; the walk is sorted by ref *)
